@@ -74,7 +74,59 @@ def rule_sweep_blocks(k):
     return out
 
 
+PSEUDO_TASKS = 24
+
+
+def pseudo_sweep_blocks(r):
+    """Blocks made of pseudo pushes (PUSHLIB, PUSH [tag], PUSH data, PUSH #[$], PUSH [$], PUSHIMMUTABLE) whose operands
+    repeat inside the block, followed by stack shuffles that make the optimizer regenerate the pushes: the tool renames
+    the operands per block (PUSHLIB operands become an index by distinct value) and has to restore them on the way out."""
+    out = []
+    for _ in range(5):
+        name = r.choice([n for n, hasv in B.PSEUDO if hasv] + ["PUSHLIB", "PUSHLIB"])
+        pool = []
+        while len(pool) < r.choice([2, 2, 3]):
+            v = B.pseudo_operand(r, name)
+            if v not in pool:
+                pool.append(v)
+        # the first operand repeats before the others appear
+        seq = [pool[0]] * r.choice([1, 2, 2, 3]) + [r.choice(pool) for _ in range(r.choice([1, 2, 3]))] + [pool[-1]]
+        items = [(name, v) for v in seq]
+        h = len(items)
+        for _ in range(r.choice([1, 2, 3, 4])):
+            x = r.random()
+            if x < 0.35 and h >= 2:
+                items.append(("SWAP%d" % r.randrange(1, h), None))
+            elif x < 0.6 and h >= 2:
+                items.append(("POP", None))
+                h -= 1
+            elif x < 0.8:
+                items.append(("DUP%d" % r.randrange(1, h + 1), None))
+                h += 1
+            elif h >= 2:
+                items.append((r.choice(["ADD", "AND", "SUB", "EQ"]), None))
+                h -= 1
+        if r.random() < 0.5:
+            # something the rules remove, so that the block is regenerated even when the shuffles cancel out
+            items += [("PUSH", "0"), ("ADD", None)]
+        items += [("PUSH [tag]", str(r.randrange(1, 9))), ("JUMP", None)]
+        out.append(items)
+    return out
+
+
 def build_op(spec):
+    if SWEEP_TASKS <= spec["index"] < SWEEP_TASKS + PSEUDO_TASKS:
+        r = stream(spec["seed"], spec["index"], "pseudo-sweep")
+        bl = pseudo_sweep_blocks(r)
+        flags = [[], ["-size"], ["-length"], ["-push0"]][spec["index"] % 4] + ["-greedy"]
+        single = spec["index"] % 2 == 0
+        doc = CT.gen_contract_asm(r, nblocks_init=1, nblocks_run=4, blocks=bl)
+        if not single:
+            doc = {"contracts": {"src/p.sol:P": {"asm": doc}}, "version": "0.8.17+commit.8df45f5f.Linux.g++"}
+        op = C.asm_op(doc, flags, single=single)
+        op["fmt"] = "single" if single else "asm"
+        op["desc"] = {"split": "none", "crit": "gas", "rules": True, "push0": "-push0" not in flags, "backend": "-greedy"}
+        return op
     if spec["index"] < SWEEP_TASKS:
         bl = rule_sweep_blocks(spec["index"])
         if not bl:
